@@ -226,6 +226,8 @@ def run_property(prop: str, tier: str = "quick", replay: Optional[str] = None, t
     # ledger: obligations that were discharged on the pinned tree
     ledger_path = os.path.join(LEDGER_DIR, "%s.json" % prop)
     ledger = json.load(open(ledger_path)) if os.path.exists(ledger_path) else None
+    if os.environ.get("PYVC_WRITE_LEDGER") == "1":
+        ledger = None  # re-baselining: the old ledger is not consulted
     names_now = sorted(set(r.name for r in real))
     missing = []
     if ledger is not None:
